@@ -195,6 +195,12 @@ def mon_c07(sn):
         o = sn.ord(c["name"])
         if c["verb"] == "delete":
             k = classify_delete(sn, i, c)
+            p0 = sn.by_name.get(c["name"])
+            if k is None and p0 is not None and o in sn.desired_set and p0["phase"] not in ("Failed", "Succeeded") \
+                    and sn.strategy == "RollingUpdate" and sn.upd is not None and p0["rev"] != sn.upd and 0 <= o < sn.partition:
+                # no other reason exists for this delete than the pod's revision, and its ordinal is below the partition
+                bad.append("pod %s (ordinal %d, revision %s) deleted because of its revision although it is below the partition %d"
+                           % (c["name"], o, p0["rev"], sn.partition))
             if k in ("c", "fresh-c"):
                 if sn.strategy == "OnDelete":
                     bad.append("OnDelete: pod %s deleted because of its revision" % c["name"])
@@ -236,6 +242,15 @@ def mon_c14(sn, faulty):
     upd = [c for i, c in enumerate(sn.calls) if c["verb"] == "delete" and c["res"] == "pods" and classify_delete(sn, i, c) in ("c", "fresh-c")]
     if len(upd) > 1:
         bad.append("Parallel: %d pods taken down for update in one reconcile" % len(upd))
+    if sn.upd is not None:
+        for c in upd:
+            o = sn.ord(c["name"])
+            for j in sn.desired:
+                q = sn.by_ord.get(j)
+                if j > o and q and (q[0]["rev"] != sn.upd or not sn.healthy(q[0])) and "%s-%d" % (sn.name, j) not in created:
+                    bad.append("Parallel: pod %s taken down for update while desired pod %s above it is not updated and healthy"
+                               % (c["name"], q[0]["name"]))
+                    break
     return bad
 
 
@@ -255,6 +270,14 @@ def mon_c11(sn):
                 bad.append("set being deleted: %s %s %s" % (c["verb"], c["res"], c["name"]))
             if c["res"] == "controllerrevisions" and c["verb"] == "patch":
                 bad.append("set being deleted: ControllerRevision %s adopted" % c["name"])
+    api_set = sn.sc["api"].get("set")
+    if api_set is not None and api_set["deleting"] and api_set["uid"] == sn.set["uid"]:
+        # the cache may lag: the fresh read before an adoption shows the deletion
+        for c in writes:
+            if c["res"] == "controllerrevisions" and c["verb"] == "patch" and not c.get("err"):
+                bad.append("the live set is being deleted (stale cache): ControllerRevision %s adopted" % c["name"])
+            if c["res"] == "pods" and c["verb"] == "patch" and c.get("kind") == "adopt" and not c.get("err"):
+                bad.append("the live set is being deleted (stale cache): pod %s adopted" % c["name"])
     return bad
 
 
@@ -407,6 +430,9 @@ def mon_c10(sn):
                     bad.append("revision %s adopted without a preceding successful fresh GET of the set" % n)
                 if r is not None and r["owner"] is not None:
                     bad.append("revision %s adopted although it has a controller" % n)
+                api_set = sn.sc["api"].get("set")
+                if api_set is None or api_set["uid"] != s["uid"] or api_set["deleting"]:
+                    bad.append("revision %s adopted although the live set is gone, replaced or being deleted" % n)
     if sn.obs.get("cache_mutated"):
         bad.append("an object read from the informer caches was modified")
     return bad
@@ -483,6 +509,15 @@ def mon_c06(sn, faulty):
                         bad.append("pod %s created before its claim %s was created" % (c["name"], w))
                     elif x.get("err"):
                         bad.append("pod %s created although the creation of claim %s failed (%s)" % (c["name"], w, x["err"]))
+        if c["res"] == "pods" and c["verb"] == "create" and c.get("rev"):
+            # the revision label names the revision the pod was built from
+            known = {r["name"]: r["tmpl"] for r in sn.sc["api"]["revs"]}
+            for x in calls[:i]:
+                if x["res"] == "controllerrevisions" and x["verb"] == "create" and not x.get("err"):
+                    known[x["name"]] = x.get("tmpl")
+            if c["rev"] in known and known[c["rev"]] is not None and c.get("tmpl") is not None and known[c["rev"]] != c["tmpl"]:
+                bad.append("pod %s is labelled with revision %s (template %s) but was built from template %s"
+                           % (c["name"], c["rev"], known[c["rev"]], c["tmpl"]))
         if c["res"] == "pods" and c["verb"] == "update" and c.get("ident") is False and not c.get("err"):
             bad.append("pod %s updated to a state that still lacks identity / claim volumes" % c["name"])
     # a failed claim creation is reported
